@@ -129,11 +129,18 @@ Items(p, reg, k) ==
 RegisterText(p) == (IF register[p].lay.lead THEN "# Register" \o NL(register[p].lay) \o NL(register[p].lay) \o "Some prose." \o NL(register[p].lay) ELSE "")
                    \o Items(p, register[p], 1)
 
+\* Names nobody defines, whatever the configuration: the name looked up (f:a) with a further colon-separated part (its
+\* first two parts name an existing source, the whole name does not), and a name that differs in its suffix.  "Unknown
+\* names ... give errors": none of them may resolve, and in particular none may resolve to the body of f:a.
+UnknownNames == <<"f:a:x", "f:a:inv", "f:zz">>
+UnknownInv == \A i \in 1..Len(UnknownNames) : UnknownNames[i] # "f:a"
+
 Emit == result # -1 =>
     PrintT(<<"LOOKUP", ToJson([
         rt |-> rt, rtbody |-> "t_add c=" \o ToString(RtVal),
         files |-> [p \in Paths |-> IF resfile[p] THEN "t_add c=" \o ToString(FileVal(p)) ELSE ""],
         registers |-> [p \in Paths |-> IF register[p] = None THEN "" ELSE RegisterText(p)],
         variants |-> [p \in Paths |-> IF register[p] = None THEN "none" ELSE register[p].var],
+        unknown |-> UnknownNames,
         expected |-> result])>>)
 =============================================================================
